@@ -17,6 +17,7 @@ func init() {
 }
 
 func c11Case(g *Gen, lc addchain.Chain) {
+	g.Pending("c11", encInts(lc))
 	before := cloneInts(lc)
 	out := "err"
 	var o addchain.Chain
